@@ -38,6 +38,17 @@ def gen_cases(tier):
             cfgs = [(op, order, simp) for op in ("refine", "relax") for order in ORDERS for simp in (False, True)]
             cases.append({"id": i + 1, "S": S, "ctx": ctx, "elim": [x], "cfgs": rng.sample(cfgs, 8) if tier == "quick" else cfgs})
             continue
+        if i % 20 == 9:
+            # an eliminated variable that occurs ONLY in the context: the only bound on y runs through it (and on through a kept variable),
+            # so a tactic may carry it into the term -- the result must still mention no eliminated variable
+            sg = rng.choice([1, -1])
+            S = [({"x": 1, "y": -sg}, rng.randint(0, 6))] + ([({"x": rng.choice([1, -1])}, rng.randint(1, 5))] if rng.random() < 0.4 else [])
+            ctx = [({"y": sg, "u": -sg}, 0), ({"u": sg, "w": -sg}, rng.choice([0, 1])), ({"w": sg}, rng.randint(5, 10))]
+            if rng.random() < 0.5:
+                rng.shuffle(ctx)
+            cfgs = [(op, order, simp) for op in ("refine", "relax") for order in ORDERS + [[5, 1, 2, 3, 4]] for simp in (False, True)]
+            cases.append({"id": i + 1, "S": S, "ctx": ctx, "elim": ["y", "u"], "cfgs": rng.sample(cfgs, 10) if tier == "quick" else cfgs})
+            continue
         if shape >= 6:
             cases.append(tlp_case(rng, i + 1, tier) if i % 16 >= 14 else kaykobad_case(rng, i + 1, tier))
             continue
